@@ -1,6 +1,7 @@
 package main
 
 import (
+	"errors"
 	"io"
 	"math/rand"
 	"runtime"
@@ -40,6 +41,7 @@ type pipeCarrier struct {
 	in, out   *halfPipe
 	mon       *wireMon
 	propagate bool // closing this end is visible to the peer (EOF / closed pipe)
+	closeFail bool // the first Close shuts the transport down AND returns an error
 	closeOnce sync.Once
 }
 
@@ -186,7 +188,13 @@ func (c *pipeCarrier) Write(p []byte) (int, error) {
 // sees EOF after draining and failing writes; without it the peer simply
 // never hears from this end again.
 func (c *pipeCarrier) Close() error {
+	var err error
 	c.closeOnce.Do(func() {
+		if c.closeFail {
+			// Like a process- or SSH-backed transport whose wait/exit status is
+			// reported by Close although the transport is gone afterwards.
+			err = errCarrierClose
+		}
 		c.in.mu.Lock()
 		c.in.rclosed = true
 		c.in.cond.Broadcast()
@@ -199,5 +207,7 @@ func (c *pipeCarrier) Close() error {
 		c.out.cond.Broadcast()
 		c.out.mu.Unlock()
 	})
-	return nil
+	return err
 }
+
+var errCarrierClose = errors.New("carrier: transport process exited with status 1")
